@@ -712,6 +712,23 @@ func runRedef(c *Ctx) {
 					walk(a, d+1)
 				}
 			case *ssa.Slice:
+				// opts[:len(opts):len(opts)]: the captured options with no spare capacity — whatever is appended onto this
+				// lands in an array of the invocation's own
+				if capLimited(x) {
+					src := x.X
+					for i := 0; i < 3; i++ {
+						if prm, ok := src.(*ssa.Parameter); ok {
+							if b, ok := bindings[prm]; ok {
+								src = b
+								continue
+							}
+						}
+						break
+					}
+					if capturedIs(src, 1) {
+						hasOpts, private = true, true
+					}
+				}
 				walk(x.X, d+1)
 			case *ssa.Extract:
 				// `args, err := c.args(v)`: the list result of a private helper with several results
@@ -776,6 +793,23 @@ func runRedef(c *Ctx) {
 					return
 				}
 				if core.CalleeName(x.Common()) == "builtin.append" {
+					// append(opts[:len(opts):len(opts)], …): the captured options with their capacity clipped — the append
+					// cannot write into the captured array, its result is a list of this invocation's own
+					if sl, ok := core.Strip(x.Common().Args[0]).(*ssa.Slice); ok && capLimited(sl) {
+						src := sl.X
+						for i := 0; i < 3; i++ {
+							if prm, ok := src.(*ssa.Parameter); ok {
+								if b, ok := bindings[prm]; ok {
+									src = b
+									continue
+								}
+							}
+							break
+						}
+						if capturedIs(src, 1) {
+							hasOpts, private = true, true
+						}
+					}
 					walk(x.Common().Args[0], d+1)
 					// append(nil-or-fresh, opts...) : a private copy of the captured options
 					if len(x.Common().Args) == 2 {
